@@ -85,8 +85,12 @@ func workerMain(args []string) int {
 	res := &ShardResult{Property: prop, Shard: shard, Of: of}
 	n := e.Count(tier)
 	maxViol := 8
+	switch prop {
+	case "C07", "C09", "C04":
+		maxViol = 3
+	}
 	if fp, ok := e.(FreshProcesser); ok && fp.FreshProcess("") {
-		maxViol = 2 // every shrink candidate costs a process
+		maxViol = 1 // every shrink candidate costs a process
 	}
 	for i := shard; i < n; i += of {
 		sc := e.Gen(DeriveSeed(seed, prop, i), i, tier)
@@ -117,8 +121,12 @@ func workerMain(args []string) int {
 		}
 		orig := mustJSON(sc)
 		budget := 4000
+		switch prop {
+		case "C07", "C09", "C04": // one candidate = a whole history / every seam: keep minimisation bounded
+			budget = 500
+		}
 		if fp, ok := e.(FreshProcesser); ok && fp.FreshProcess(f.Class) {
-			budget = 80
+			budget = 60
 		}
 		small, runs := shrink(e, sc, f.Class, budget)
 		// Re-run the minimised scenario to get its own log and detail.
